@@ -1,5 +1,11 @@
 import Hertz.Proofs.Http1
 import Hertz.Proofs.Http1Limits
+import Hertz.Proofs.NoFault
+import Hertz.Proofs.NoFaultCodec
+import Hertz.Proofs.NoFaultPath
+import Hertz.Proofs.NoFaultLine
+import Hertz.Proofs.ErrResp
+import Hertz.Proofs.Fs
 /-!
 # C03 — no peer-controlled input can crash the process; bad input gets a clean 4xx
 
@@ -17,6 +23,44 @@ Proved here for every configuration, every inbound byte stream and both stream e
 * `oversize_never_handled`: with a body limit configured, no request whose (de-chunked) body is longer than the
   limit is ever handed to a handler, whatever the stream;
 * `empty_trailer_name_is_bad`: the fixed `IsBadTrailer` treats the empty name as bad instead of indexing it.
+
+Totality of the public parsers of untrusted data (second half of the file).  The list-based models of C07/C08/C17/C11
+are total by construction, so "never panics" would be true of them for the wrong reason.  `Model/NoFault.lean`,
+`NoFaultCodec.lean`, `NoFaultPath.lean` re-state each parser with the index / slice / table expressions of the Go source
+(`Int` indices, `none` where the Go run time would panic, fuel for every loop), `Model/Fs.lean` already had that shape:
+* `uri_parse_total`, `split_host_uri_total`, `normalize_path_total` — `URI.Parse` with `getScheme`, `splitHostURI`, the
+  user-info cut, the query/fragment cut and `normalizePath` (four in-place loops);
+* `decode_arg_total`, `args_parse_total` — percent decoding (`%` at the end, table lookups) and `Args.ParseBytes`;
+* `cookie_parse_total`, `request_cookies_total` — `Cookie.ParseBytes` (attribute dispatch on `key[0]` / `value[0]`,
+  `decodeCookieArg`, the scanner) and the request cookie list;
+* `range_parse_total` — `ParseByteRange` (C08's `range_no_panic` restated for the fault outcome);
+* `trailer_parse_total` — `IsBadTrailer` with its prefix slices, equal to the list model the loop uses;
+* `multipart_boundary_total` — `RequestHeader.MultipartFormBoundary`;
+* `error_response_wellformed` — every non-200 response of the loop model is, byte for byte, one message with a 4xx status
+  and `Connection: close` under the strict response decoder of C04 (`Spec/Resp`).
+Each checked model is what the driver diffs against the real code on hostile input (`Driver/C03p.lean`, `harness/c03p.go`),
+and it is compared with the list model on every case.
+
+TODO-OPEN
+* `serve_total` / `request_head_total` / `response_read_total`: the loop models (`Model/Http1/{Scan,ReqHead,Body,Serve,
+  RespRead}.lean`) are written over lists without a fault outcome, so a "never yields fault" statement about them would be
+  vacuous.  Re-stated and proved so far: `utils.NextLine` + the request-line parser (`request_line_total`) and the response
+  status-line parser (`response_status_line_total`).  Not yet: the header scanner
+  (`s.b[:n]`, `b[n+1:]`, obs-fold compaction `normalizeHeaderValue`), `ParseChunkSize`/`readBodyChunked` (`buf[:n]`, the
+  `round2` allocation — known finding C03-huge-chunk-alloc on the client side), `readBodyFixedSize`, `parseTrailer`
+  (only `IsBadTrailer` is covered).  A `response_read_total` will carry the known finding C03-huge-chunk-alloc as its stated
+  exception, on BOTH routes into `appendBodyFixedSize` (no body-size limit): a chunk-size line ≥ 2^47 and a `Content-Length`
+  ≥ 2^47 (panic: makeslice); between about 2^38 and 2^47 the process dies with a fatal out-of-memory error inside
+  `standard.Conn.Peek`, which is not a panic and cannot be recovered.  Their tie is the sampled one (ops `serve`, `reqhead`,
+  `respread`, `redir` under `recover`).
+* `http_date_parse_total`: `bytesconv.ParseHTTPDate` is `time.Parse(time.RFC1123, …)`; hertz itself indexes nothing.  The
+  `time` package is trusted; op `nfdate` runs it on hostile input and compares with `Model/HttpDate.lean`.
+* `utils.CleanPath` with its 128-byte stack buffer (`buf[:n+1]`, class of seed C03-m3) is covered by op `redir` only; no
+  checked re-statement with a capacity.
+* equality `NF.parse = some ∘ Uri.parse` (and the same for args / cookies / decode / normalizePath) is compared by the driver
+  on every case but proved only for `IsBadTrailer`, `splitHostURI` (`split_host_uri_agrees`), the percent decoders
+  (`decode_arg_agrees`) and the cookie attribute step (`cookie_attribute_agrees`).
+* `Cookie.ParseBytes`: the value of an `expires` attribute goes to `time.ParseInLocation` (not modelled; "no panic" only).
 -/
 namespace Hertz.Props.C03
 open Hertz Hertz.H1
@@ -58,5 +102,138 @@ theorem empty_trailer_name_is_bad : isBadTrailer [] = true := rfl
 
 /-- non-vacuity: a malformed request line is answered by exactly one closing 400. -/
 example : serve {} .eof [71, 69, 84, 13, 10, 13, 10] = [.resp 400 true] := by decide +kernel
+
+/-! ## Totality of the public parsers of untrusted data
+
+`Model/NoFault*.lean` re-states each parser with the index and slice expressions of the Go source; `none` is a
+run-time panic (or a loop that does not end).  Each theorem below: for EVERY input the result is `some _`. -/
+
+/-- `RequestHeader.MultipartFormBoundary` (the boundary extraction hertz does itself before `mime/multipart`): no
+index/slice panic and the parameter loop terminates, for every Content-Type value. -/
+theorem multipart_boundary_total (ct : Bytes) : (NF.multipartFormBoundary ct).isSome = true :=
+  NF.multipartFormBoundary_total ct
+
+/-- non-vacuity: a quoted boundary behind another parameter; the one-quote value of seed C03-m4 -/
+example : NF.multipartFormBoundary
+    [109,117,108,116,105,112,97,114,116,47,102,111,114,109,45,100,97,116,97,59,32,120,61,121,59,32,32,98,111,117,110,100,97,114,121,61,34,97,32,98,34,59,122]
+    = some [97, 32, 98] := by decide +kernel
+example : NF.multipartFormBoundary
+    [109,117,108,116,105,112,97,114,116,47,102,111,114,109,45,100,97,116,97,59,98,111,117,110,100,97,114,121,61,34] = some [34] := by decide +kernel
+
+/-- `protocol.IsBadTrailer` with its `key[0]`, `key[:8]`, `key[8:]`, `key[:6]`, `key[6:]`: never a fault, and the value is
+the one the request-loop model uses (regression of 6c2253e: the empty name). -/
+theorem trailer_parse_total (key : Bytes) : NF.isBadTrailer key = some (isBadTrailer key) := NF.isBadTrailer_eq key
+
+example : NF.isBadTrailer [] = some true := by decide
+example : NF.isBadTrailer [99,111,110,116,101,110,116,45,116,121,112,101] = some true := by decide +kernel
+example : NF.isBadTrailer [99,111,110,116,101,110,116,45,116,121,112] = some false := by decide +kernel
+
+/-- `app.ParseByteRange` for every header value and every content length: a range or the Go error, never the panic
+outcome of the checked model `Model/Fs.lean` (regression of cd97077; the statement is C08's `range_no_panic`). -/
+theorem range_parse_total (r : Bytes) (n : Int) (site : String) : FS.parseByteRange r n ≠ .error (.panic site) := by
+  rcases FS.parseByteRange_no_panic r n with ⟨p, h⟩ | h <;> rw [h] <;> intro h' <;> cases h'
+
+example : FS.parseByteRange [98,121,116,101,115,61,45,49] 0 = .error .bad := by decide +kernel
+
+/-- `URI.Parse(host, uri)` for every host and every request target: `getScheme` / `checkSchemeWhenCharIsColon`
+(`rawURL[:i]`, `rawURL[i+1:]`), `splitHostURI` (`path[2:]`, `uri[:n]`, `uri[n:]` — regression of 85d2e7f, target `a:b`),
+the user-info cut (`host[:n]`, `host[n+1:]`, `auth[:n]`, `auth[n+1:]`) and the query / fragment cut
+(`b[:q]`, `b[q+1:]`, `b[q+1:f]`, `b[f+1:]`, `b[:f]`) and `normalizePath` on the cut path never index or slice out of range. -/
+theorem uri_parse_total (host uri : Bytes) : ∃ u, NF.parse host uri = some u := NF.parse_total host uri
+
+/-- non-vacuity: `a:b` without host (the old panic), and a full URL with user-info, query and fragment -/
+example : (NF.parse [] [97, 58, 98]).map (·.pathOriginal) = some [97, 58, 98] := by decide +kernel
+example : NF.parse [] [104,116,116,112,58,47,47,117,58,112,64,72,47,120,63,113,35,102]
+    = some { scheme := [104,116,116,112], username := [117], password := [112], host := [104], pathOriginal := [47,120],
+             path := [47,120], query := [113], hash := [102] } := by decide +kernel
+
+/-- `normalizePath` (also behind `URI.SetPath`, `Update`): `addLeadingSlash` (`src[0]`), the percent decoder, and the four
+in-place loops whose slice bounds come from `bytes.Index` / `bytes.LastIndexByte` (`b[n:]`, `b[1:]`, `b[:len(b)-1]`,
+`dst[:bSize]`, `b[nn:]`, `b[:len(b)-nn+n]`, `b[:n]`, `b[:nn+1]`): no fault, and every loop ends. -/
+theorem normalize_path_total (src : Bytes) : ∃ r, NF.normalizePathC src = some r := NF.normalizePathC_total src
+
+example : NF.normalizePathC [47,97,47,47,98,47,46,47,99,47,46,46,47,100,47,46,46] = some [47,97,47,98,47] := by decide +kernel
+example : NF.normalizePathC [47, 46, 46] = some [47] := by decide +kernel
+
+/-- `splitHostURI` alone (it is also what the client calls on a redirect `Location`). -/
+theorem split_host_uri_total (host uri : Bytes) : ∃ r, NF.splitHostURI host uri = some r := NF.splitHostURI_total host uri
+
+/-- … and it computes exactly the list model `Uri.splitHostURI` that C17's round-trip theorems are about. -/
+theorem split_host_uri_agrees (host uri : Bytes) : NF.splitHostURI host uri = some (Uri.splitHostURI host uri) :=
+  NF.splitHostURI_eq host uri
+
+/-- Percent decoding (`decodeArgAppend`, `decodeArgAppendNoPlus`): `src[i+1]`, `src[i+2]` are only read when `i+2 < len`,
+`%` at the end or one byte before it is copied, the 256-entry table lookups are in range; the loop terminates. -/
+theorem decode_arg_total (plus : Bool) (src : Bytes) : ∃ r, NF.decodeArg plus src = some r := NF.decodeArg_total plus src
+
+/-- … and they compute exactly the list models `decodeArg` / `decodeArgNoPlus` of C17 (so `decode (quote b) = b` and the
+other C17 theorems hold of the function with the checked indexing). -/
+theorem decode_arg_agrees (src : Bytes) :
+    NF.decodeArg true src = some (decodeArg src) ∧ NF.decodeArg false src = some (decodeArgNoPlus src) :=
+  ⟨NF.decodeArg_plus_eq src, NF.decodeArg_noplus_eq src⟩
+
+example : NF.decodeArg true [97, 43, 37, 52, 49, 37] = some [97, 32, 65, 37] := by decide +kernel
+example : NF.decodeArg false [37, 52] = some [37, 52] := by decide +kernel
+
+/-- `Args.ParseBytes` (query strings and url-encoded forms): `argsScanner.next` with `s.b[:i]`, `s.b[k:i]`, `s.b[i+1:]`,
+`s.b[k:]`, `s.b[len(s.b):]` and the decoder never fault, and the `for s.next(kv)` loop ends, for every byte string. -/
+theorem args_parse_total (b : Bytes) : ∃ l, NF.parseArgs b = some l := NF.parseArgs_total b
+
+example : (NF.parseArgs [97, 61, 37, 38, 43, 38, 61]).map (·.length) = some 2 := by decide +kernel
+
+/-- `Cookie.ParseBytes` (response cookies; every attribute except the value of `expires`, which goes to Go's `time`):
+the scanner (`b[:i]`, `b[k:i]`, `b[i+1:]`, `b[k:]`), `decodeCookieArg` (`src[0]`, `src[len-1]`, `src[1:len-1]`) and the
+attribute dispatch on `kv.key[0]` / `kv.value[0]` (regression of 9cfc2eb: `SameSite=` with an empty value) never fault. -/
+theorem cookie_parse_total (src : Bytes) : ∃ r, NF.parseCookie src = some r := NF.parseCookie_total src
+
+/-- the attribute step with `kv.key[0]` / `kv.value[0]` checked computes exactly the list model `Uri.applyAttr` -/
+theorem cookie_attribute_agrees (c : Uri.Cookie) (k v : Bytes) : NF.applyAttr c k v = some (Uri.applyAttr c (k, v)) :=
+  NF.applyAttr_eq c k v
+
+/-- non-vacuity: `a=b; SameSite=` (the old panic) parses; `a=b;max-age=x` is the Go error, not a fault -/
+example : (NF.parseCookie [97,61,98,59,32,83,97,109,101,83,105,116,101,61]).map (fun r => r.map (·.value)) = some (some [98]) := by
+  decide +kernel
+example : NF.parseCookie [97,61,98,59,109,97,120,45,97,103,101,61,120] = some none := by decide +kernel
+
+/-- request cookie lists (`Cookie:` header → `parseRequestCookies`) -/
+theorem request_cookies_total (src : Bytes) : ∃ l, NF.parseReqCookies src = some l := NF.parseReqCookies_total src
+
+example : (NF.parseReqCookies [97,61,98,59,32,34,59,61,59,99]).map (·.length) = some 3 := by decide +kernel
+
+/-- First step of `request_head_total`: `utils.NextLine` (`b[n-1]`, `b[:n]`, `b[nNext+1:]`) and the request-line parser
+`parseFirstLine` (leading empty lines, `b[:n]`, `b[n+1:]`, the `LastIndexByte` cut) never fault, for every buffer.  (The
+header scanner behind it is not re-stated yet, see TODO-OPEN.) -/
+theorem request_line_total (buf : Bytes) : ∃ r, NF.parseFirstLine buf = some r := NF.parseFirstLine_total buf
+
+example : NF.parseFirstLine [13,10,71,69,84,32,47,120,32,72,84,84,80,47,49,46,49,13,10,72] =
+    some (.ok ([71,69,84], [47,120], true, 19)) := by decide +kernel
+example : NF.parseFirstLine [32, 10] = some (.error .bad) := by decide +kernel
+
+/-- First step of `response_read_total`: the status-line parser of the client's response reader (`b[:n]`, `b[n+1:]`,
+`b[n]` behind `len(b) > n` after `ParseUintBuf`) never faults, for every buffer. -/
+theorem response_status_line_total (buf : Bytes) : ∃ r, NF.parseStatusLine buf = some r := NF.parseStatusLine_total buf
+
+example : NF.parseStatusLine [72,84,84,80,47,49,46,49,32,50,48,48,32,79,75,13,10] = some (.ok (200, true, 17)) := by decide +kernel
+example : NF.parseStatusLine [72,84,84,80,47,49,46,49,32,50,48,48,120,13,10] = some (.error .bad) := by decide +kernel
+
+/-! ## "never emits bytes that are not well-formed HTTP": the error responses -/
+
+/-- Every response the loop model emits that is not a handler's 200 — for every configuration, stream end and inbound
+byte stream — has `Connection: close`, a 4xx status, and its bytes on the wire (`errorResponse`: `AbortWithMsg` +
+server name + `SetConnectionClose` through the ordinary response writer, whatever server name and date) are read back by
+the strict response decoder `Spec/Resp.decodeOne` as exactly ONE message with that status, a `Connection: close` field and
+the error text as body, leaving whatever follows untouched.  Together with `reject_is_clean` (it is the last thing
+written): a rejected request produces exactly one well-formed closing 4xx message. -/
+theorem error_response_wellformed (cfg : Cfg) (e : End) (s : Bytes) (st : Nat) (c : Bool)
+    (hm : Ev.resp st c ∈ serve cfg e s) (hne : st ≠ 200) (server : Bytes) (date : Option Bytes) (rest : Bytes) :
+    c = true ∧ 400 ≤ st ∧ st < 500 ∧
+    ∃ m, Spec.Resp.decodeOne false (errorResponse st server date ++ rest) = some (m, rest) ∧ m.status = st ∧
+      (Gen.Str.strConnection, Gen.Str.strClose) ∈ m.fields ∧ m.body = errMsg st :=
+  serve_error_wellformed cfg e s st c hm hne server date rest
+
+/-- non-vacuity: the loop answers `GET\\r\\n\\r\\n` with a 400 (example above); its bytes with server `hertz`, no date, followed
+by junk, decode to status 400 with the junk left over -/
+example : (Spec.Resp.decodeOne false (errorResponse 400 [104,101,114,116,122] none ++ [1, 2, 3])).map
+    (fun r => (r.1.status, r.1.body.length, r.2)) = some (400, 26, [1, 2, 3]) := by decide +kernel
 
 end Hertz.Props.C03
